@@ -1360,22 +1360,19 @@ func marshalDate(info TypeInfo, value interface{}) ([]byte, error) {
 		return nil, nil
 	case int64:
 		timestamp = v
-		x := timestamp/millisecondsInADay + int64(1<<31)
-		return encInt(int32(x)), nil
+		return encDate(timestamp), nil
 	case time.Time:
 		if v.IsZero() {
 			return []byte{}, nil
 		}
 		timestamp = int64(v.UTC().Unix()*1e3) + int64(v.UTC().Nanosecond()/1e6)
-		x := timestamp/millisecondsInADay + int64(1<<31)
-		return encInt(int32(x)), nil
+		return encDate(timestamp), nil
 	case *time.Time:
 		if v.IsZero() {
 			return []byte{}, nil
 		}
 		timestamp = int64(v.UTC().Unix()*1e3) + int64(v.UTC().Nanosecond()/1e6)
-		x := timestamp/millisecondsInADay + int64(1<<31)
-		return encInt(int32(x)), nil
+		return encDate(timestamp), nil
 	case string:
 		if v == "" {
 			return []byte{}, nil
@@ -1385,14 +1382,25 @@ func marshalDate(info TypeInfo, value interface{}) ([]byte, error) {
 			return nil, marshalErrorf("can not marshal %T into %s, date layout must be '2006-01-02'", value, info)
 		}
 		timestamp = int64(t.UTC().Unix()*1e3) + int64(t.UTC().Nanosecond()/1e6)
-		x := timestamp/millisecondsInADay + int64(1<<31)
-		return encInt(int32(x)), nil
+		return encDate(timestamp), nil
 	}
 
 	if value == nil {
 		return nil, nil
 	}
 	return nil, marshalErrorf("can not marshal %T into %s", value, info)
+}
+
+// encDate encodes a timestamp in milliseconds since the Unix epoch as a CQL
+// date: the number of days since the epoch, counted with floor so that a time
+// before 1970 falls on its own day, as an unsigned integer centred on 2^31.
+func encDate(timestamp int64) []byte {
+	days := timestamp / millisecondsInADay
+	if timestamp%millisecondsInADay < 0 {
+		days--
+	}
+	x := days + int64(1<<31)
+	return encInt(int32(x))
 }
 
 func unmarshalDate(info TypeInfo, data []byte, value interface{}) error {
